@@ -41,13 +41,13 @@ Qed.
 
 Ltac sproj :=
   cbn [sc_in sc_mark sc_tokens sc_stream_start sc_stream_end sc_adjacent sc_ska sc_sks sc_indent sc_indents
-       sc_flow_level sc_tokens_parsed sc_token_available sc_lws sc_fms sc_ifms
-       set_in set_mark set_tokens set_flags set_ska set_lws set_fms set_adj set_ta set_ss set_se
+       sc_flow_level sc_tokens_parsed sc_token_available sc_lws sc_ifms
+       set_in set_mark set_tokens set_flags set_ska set_lws set_adj set_ta set_ss set_se
        set_struct set_sks set_indent set_fl set_tp set_ifms upd].
 Ltac sproj_in H :=
   cbn [sc_in sc_mark sc_tokens sc_stream_start sc_stream_end sc_adjacent sc_ska sc_sks sc_indent sc_indents
-       sc_flow_level sc_tokens_parsed sc_token_available sc_lws sc_fms sc_ifms
-       set_in set_mark set_tokens set_flags set_ska set_lws set_fms set_adj set_ta set_ss set_se
+       sc_flow_level sc_tokens_parsed sc_token_available sc_lws sc_ifms
+       set_in set_mark set_tokens set_flags set_ska set_lws set_adj set_ta set_ss set_se
        set_struct set_sks set_indent set_fl set_tp set_ifms upd] in H.
 
 Section Fetch.
